@@ -17,8 +17,10 @@ def write(prop, tier, seed, level, coverage, wall_s, violations, assumptions=Non
     }
     if extra:
         d.update(extra)
-    os.makedirs(os.path.join(VERIF, 'evidence'), exist_ok=True)
-    p = os.path.join(VERIF, 'evidence', f'{prop}.json')
+    # breaker evaluations against a scratch worktree (QV_REPO) must not overwrite the evidence of the real tree
+    evdir = os.environ.get('QV_EVIDENCE_DIR') or os.path.join(VERIF, 'evidence')
+    os.makedirs(evdir, exist_ok=True)
+    p = os.path.join(evdir, f'{prop}.json')
     tmp = p + '.tmp'
     with open(tmp, 'w') as f:
         json.dump(d, f, indent=1, default=repr)
